@@ -44,6 +44,9 @@ type InstSpec struct {
 	MaxFail      int           `json:"max_fail,omitempty"`
 	Conn         bool          `json:"conn,omitempty"`
 	BlockPromote bool          `json:"block_promote,omitempty"`
+	// PromoteLinger: after its context is done the (blocking) promotion callback keeps
+	// running for this long before it returns (a user task that is slow to wind down)
+	PromoteLinger time.Duration `json:"promote_linger,omitempty"`
 	DemoteDelay  time.Duration `json:"demote_delay,omitempty"`
 }
 
